@@ -211,4 +211,67 @@ REGISTRY = {
         not_decided='Minimality of the dirty set is not required by the property.', technique='abstract interpretation with a ghost written/marked relation',
         rule='R-DIRTY per write site and per screen-wide operation; R-DIRTYBOUND per mark site',
     ),
+    'C08': dict(
+        modules=['rules_screen2'], entry='run_c08',
+        explanation=('D1 R-TABLE - TEXT, FG_ANSI, BG_ANSI, FG_AIXTERM, BG_AIXTERM (obtained by interpreting the lazy_static initialisers), FG_256/BG_256, and all 256 palette entries (RGB triple '
+                     'of every entry vs the xterm palette computed independently, plus the rrggbb formatter template) equal the documented tables. D4 - the palette lookup index ranges over exactly '
+                     '0..=255 and the vector has 256 entries. D2/D3/D6 - the rendition after select_graphic_rendition equals the documented left-to-right fold for every single code '
+                     '(0..=110 + samples in quick, 0..=9999 in thorough) from an arbitrary previous rendition, for all 38/48;5;n and 38/48;2;r;g;b forms incl. truncated tails, out-of-range components and '
+                     'unknown sub-modes (sub-parameter consumption), and for mixed lists: decided by abstract interpretation with the parameter list fixed and the previous rendition symbolic. '
+                     'D5 - SGR writes only cursor.attr (cells on screen never change); clone_with_data copies all rendition fields. NOT decided: arbitrary longer lists beyond the fold structure shown by the enumerated ones.'),
+        level_text='Finite-domain decision of the SGR fold (every code, every extended-colour form) by abstract interpretation with symbolic previous rendition, plus table / palette comparison on evaluated values.',
+        not_decided='Longer arbitrary lists are covered by the fold structure, not enumerated.', technique='table comparison on interpreted initialisers + finite-domain abstract interpretation of the fold',
+        rule='R-TABLE per table; R-GUARD palette index; R-FOLD over the enumerated parameter lists; R-FRAME; R-COPYALL',
+    ),
+    'C18': dict(
+        modules=['rules_screen2'], entry='run_c18',
+        explanation=('D1 - reset clears the stops and extends them with (8..columns).step_by(8) (iterator operands read from the abstract iterator). D2 - HTS inserts exactly the cursor column; TBC 0/absent '
+                     'removes the stop at the cursor, 3 clears all, other selectors do nothing; both write only tabstops. D3 - HT writes only cursor.x and, for 80 (stop set, cursor column) classes with a symbolic '
+                     'width (unsorted sets, a stop at 0, the pending-wrap column, stops beyond a narrowed width), ends at min(least stop strictly right, columns-1) or the last column; the scan is order independent (sorted).'),
+        level_text='Decision tables for HTS/TBC on all paths; HT decided on representative stop sets with a symbolic screen width by abstract interpretation + term equivalence.',
+        not_decided='', technique='abstract interpretation + decision-table extraction + term equivalence', rule='R-TABS clauses; R-FRAME; R-ORDER',
+    ),
+    'C14': dict(
+        modules=['rules_screen2'], entry='run_c14',
+        explanation=('D1 R-COPYALL - save_cursor pushes one Savepoint whose 6 fields come from the live cursor, G0, G1, shift state and the DECOM / DECAWM mode bits. D2 - restore_cursor reads every Savepoint field back. '
+                     'D3 R-WHO - only save_cursor pushes and only restore_cursor pops the stack; resize pairs them. D4/D5 - on every path restore_cursor restores cursor and charset state and touches neither grid, margins, '
+                     'tab stops nor geometry (path-sensitive write sets from E4, which sees that the re-enabled modes are DECOM/DECAWM only); with an empty stack it homes the cursor and clears origin mode; the restored position '
+                     'satisfies the invariant (C09). NOT decided: LIFO round-trip equalities over intervening histories as such (value level).'),
+        level_text='Field-by-field copy/consume obligations, who-may-call on the stack, and path-sensitive frames.', not_decided='Round-trip value equalities over arbitrary intervening histories.',
+        technique='abstract interpretation (provenance of pushed fields, path-sensitive write sets) + who-may-call rule', rule='R-COPYALL, R-WHO, R-RESTORE, R-PAIR, R-FRAME',
+    ),
+    'C15': dict(
+        modules=['rules_screen2'], entry='run_c15',
+        explanation=('D1 R-KILL - on every path reset() overwrites/clears every Screen field except savepoints, lines, columns (the rule fails closed if Screen gains a field). D2 R-DEP - the exit values are the power-on '
+                     'constants: cursor home and visible, default rendition (read after the mode set was reset), no margins, modes {DECAWM, DECTCEM}, empty title/icon name, G0 Latin-1 / G1 DEC graphics, no saved width, all rows dirty; '
+                     'tab stops per C18. D3 - Screen::new is the struct literal followed by reset() and nothing else, so state(h . RIS) equals state(new(columns, lines)) on every field but the saved-cursor stack, for every history. '
+                     'D4 - ESC c dispatches reset(). NOT decided: parser-level state (UTF-8 flag, decoder carry) is not reset by RIS.'),
+        level_text='Must-write plus value-determinacy proof over all paths of reset(), tied to the constructor structure.', not_decided='Parser-level state is outside RIS.',
+        technique='abstract interpretation (must-write + constant exit values) + structural constructor rule', rule='R-KILL, R-DEP, R-NEW, R-DISPATCH',
+    ),
+    'C16': dict(
+        modules=['rules_screen2'], entry='run_c16',
+        explanation=('D1 - every path on which the requested size provably equals the current one performs no store and no collection operation. D2 - on size-changing paths the region is None and the new geometry installed at exit, '
+                     'all rows of the new geometry are marked, the cursor satisfies the invariant against the new bounds. D3 - on shrinking paths rows >= new height and cells >= new width are pruned (retain with key < new bound). '
+                     'D4 - surplus rows are dropped by delete_lines(old-new) called with the cursor on row 0 and no scrolling region in the state at the call. NOT decided: exact placement of surviving content for every state (the row map of delete_lines is C06).'),
+        level_text='Path-restricted effect freedom, exit invariant, pruning obligations and call-site state predicates on all abstract paths of resize.', not_decided='Cell-level placement of surviving content.',
+        technique='abstract interpretation with call-site state snapshots', rule='R-NOOP, R-RESIZE, R-DIRTY, R-GRID, R-INV',
+    ),
+    'C12': dict(
+        modules=['rules_screen2'], entry='run_c12',
+        explanation=('D1 R-CONST - the 7 mode constants and the power-on mode set. D2-D5 - decision table over 20 mode numbers x {private, ANSI} x {SM, RM}, each run abstractly from an arbitrary invariant state: the (shifted) number is added / the set rebuilt without it; '
+                     'DECCOLM remembers the width, switches to 132 (RM restores), erases and homes; DECOM homes; DECSCNM sets/clears reverse on the current rendition and marks all rows (either spelling); DECTCEM shows/hides the cursor; every other number changes nothing but the mode set. '
+                     'Lists: union / difference of exactly the listed numbers on a known set. D6 - IRM / DECAWM are consulted by draw, LNM by linefeed. NOT decided: repeated set/set of DECCOLM and other value-level interplay with DECSC/DECRC/resize.'),
+        level_text='Decision-table extraction for SM/RM by abstract interpretation with the mode list fixed and the screen state symbolic.', not_decided='Value-level interplay of repeated DECCOLM with save/restore and resize.',
+        technique='finite-domain abstract interpretation (decision table)', rule='R-CONST, R-TABLE, R-MODES per (number, private, SM/RM), R-MUST, R-DIRTY',
+    ),
+    'C04': dict(
+        modules=['rules_screen2'], entry='run_c04',
+        explanation=('Decided (the discipline around the value-level behaviour): D1 R-FRAME draw writes only buffer, dirty, cursor.x, cursor.y (through linefeed/index/insert_characters). D2/D3 R-FOOT - every cell draw itself stores is on the cursor row, at the cursor column or the next one (placeholder), '
+                     'and is built by clone_with_data from the cursor rendition (R-COPYALL: all 8 rendition fields); R-GRID column keys < columns, row keys < lines. D4 - cursor.x <= columns after every character. D5 R-MUST - in insert mode the row is shifted before the store and never in replace mode. '
+                     'D7 R-ABSENT / R-DIRTY for the combining-mark paths. R-PANIC for draw. NOT decided: the resulting grid for every state x text (which characters are wide / zero-width / combining and NFC composition depend on unicode-width and unicode-normalization data).'),
+        level_text='Structural obligations (frame, footprint, provenance, order) on every abstract path of draw; the Unicode-data-dependent cell contents are explicitly not decided.',
+        not_decided='Cell contents for every state x text (Unicode width / normalisation data).', technique='abstract interpretation: footprint, provenance and order obligations',
+        rule='R-FRAME, R-FOOT per store site, R-GRID, R-ABSENT, R-DIRTY, R-COPYALL, R-MUST, R-INV, R-PANIC',
+    ),
 }
